@@ -27,6 +27,12 @@ def _facts_job(ops):
     return schema_facts(set(ops))
 
 
+def _sensitive_job():
+    from harness.opsetjobs import opset_sensitive_keys
+
+    return opset_sensitive_keys()
+
+
 def _newest_job():
     from onnx import defs
 
@@ -81,6 +87,8 @@ def run(ctx: Ctx) -> None:
                 if pr["ort"] == "invalid":
                     ctx.violation({**sigbase, "what": "ort_load"}, f"{rec['key']} at opset {ops}: ORT load: {pr['ort_why']}", pr["ort_why"])
                     bad = True
+                if pr.get("run_error") and ops != base and "run_error" not in rec["per_opset"].get(base, {}):
+                    ctx.violation({**sigbase, "what": "run_error"}, f"{rec['key']} at opset {ops} fails at run time while its default-opset export runs: {pr['run_error']}", pr["run_error"])
                 if pr.get("equal_to_default") is False:
                     ctx.violation({**sigbase, "what": "differs_from_default_opset"}, f"{rec['key']} at opset {ops} computes different outputs than at its default opset {base}", None)
                 if not bad:
@@ -89,6 +97,51 @@ def run(ctx: Ctx) -> None:
                         events.append({"tid": tid, **e})
                 if len(ctx.cov["samples"]) < 8 and ops != base:
                     ctx.sample({"export": rec["key"], "opset": int(ops), "nodes": len(pr["events"]), "checker": pr["checker"], "ort": pr["ort"], "equal_to_default": pr.get("equal_to_default")})
+    # ---- context sweep: opset-branching lowerings (facts) inside a function body / a cond branch, all opsets,
+    # with steering values for integer scalar operands
+    sens = run_tasks([{"fn": "harness.checks.c11:_sensitive_job", "args": {}, "timeout": 900}], nworkers=1, timeout=900)[0][1]
+    if sens.get("status") != "ok":
+        raise MachineryError(f"opset-sensitive facts job failed: {str(sens)[:400]}")
+    sinfo = sens["result"]
+    ctx.extra["opset_branching_plugins"] = sinfo["files"]
+    sidx = sorted(sinfo["indices"])
+    if ctx.quick:
+        # one single-precision testcase per component and a sample of the rest
+        rng.shuffle(sidx)
+        sidx = sorted(sidx[:60])
+    all_opsets = list(range(21, newest + 1))
+    cres = run_tasks([{"fn": "harness.opsetjobs:context_job", "args": {"indices": c, "opsets": all_opsets}, "timeout": 3000} for c in [sidx[i::n] for i in range(n)] if c], nworkers=n, timeout=3000)
+    nctx = 0
+    for task, out in cres:
+        if out.get("status") != "ok":
+            if out.get("status") in ("timeout", "crash"):
+                ctx.extra["context_tasks_timed_out"] = ctx.extra.get("context_tasks_timed_out", 0) + 1
+                continue
+            raise MachineryError(f"C11 context worker failed: {str(out)[:700]}")
+        for rec in out["result"]:
+            exported = [o_ for o_, pr in rec["per_opset"].items() if "export_error" not in pr]
+            for ops, pr in rec["per_opset"].items():
+                if "export_error" in pr:
+                    continue
+                nctx += 1
+                nexp += 1
+                tid += 1
+                ctx.count((rec["key"], rec["context"], ops), nontrivial=True)
+                sigbase = {"engine": "opset_context", "testcase": rec["key"], "context": rec["context"], "opset": int(ops)}
+                bad = False
+                if pr["checker"] != "ok":
+                    ctx.violation({**sigbase, "what": "checker"}, f"{rec['key']} in a {rec['context']} at opset {ops}: checker: {pr['checker']}", pr["checker"])
+                    bad = True
+                if pr["ort"] == "invalid":
+                    ctx.violation({**sigbase, "what": "ort_load"}, f"{rec['key']} in a {rec['context']} at opset {ops}: ORT load: {pr['ort_why']}", pr["ort_why"])
+                    bad = True
+                for mm in pr.get("mismatch", [])[:1]:
+                    ctx.violation({**sigbase, "what": mm["what"]}, f"{rec['key']} in a {rec['context']} at opset {ops} on inputs {mm['inputs']}: {mm['what']} {mm.get('detail', 'differs from JAX')}", mm)
+                if not bad:
+                    for e in pr["events"]:
+                        ops_seen.add(e["op"])
+                        events.append({"tid": tid, **e})
+    ctx.extra["context_exports"] = nctx
     ctx.extra["exports_censused"] = nexp
     ctx.extra["explicit_rejections_at_some_opset"] = explicit_rejections
     facts = run_tasks([{"fn": "harness.checks.c11:_facts_job", "args": {"ops": sorted(ops_seen)}, "timeout": 600}], nworkers=1, timeout=600)[0][1]
